@@ -361,3 +361,31 @@ package astisub
 //@   loop 2: invariant forall t time.Duration, x string :: txt(sub) == x && sub.StartAt <= t && t < sub.EndAt ==> old(onScreenBelow(s, $k1 + 1, t, x))
 //@   loop 2: invariant forall t time.Duration, x string :: old(onScreenBelow(s, $k1 + 1, t, x)) ==> onList(items, t, x) || (txt(sub) == x && sub.StartAt <= t && t < sub.EndAt)
 //@ end
+
+// ---------------------------------------------------------------------------
+// C15  (*Subtitles).ApplyLinearCorrection
+// ---------------------------------------------------------------------------
+
+//@ pred instant(t time.Duration) = 0 <= t && t <= 86400000000000
+//@ pred instants(s *Subtitles) = forall k int :: 0 <= k && k < len(s.Items) ==> instant(s.Items[k].StartAt) && instant(s.Items[k].EndAt)
+
+//@ func (s *Subtitles) ApplyLinearCorrection(actual1, desired1, actual2, desired2 time.Duration)
+//@   prop C15
+//@   opt float-model rounding-error
+//@   requires wfItems(s) && instants(s)
+//@   requires instant(actual1) && instant(actual2) && instant(desired1) && instant(desired2) && actual1 != actual2
+//@   requires 0.5 <= real(desired2 - desired1) / real(actual2 - actual1) && real(desired2 - desired1) / real(actual2 - actual1) <= 2.0
+//@   ghostfun opaque O(k int) *Item = old(s.Items[k])
+//@   ghostfun opaque E0(k int) time.Duration = old(s.Items[k].EndAt)
+//@   ghostfun opaque S0(k int) time.Duration = old(s.Items[k].StartAt)
+//@   ghostfun affine(t time.Duration) real = real(desired1) + real(t - actual1) * (real(desired2 - desired1) / real(actual2 - actual1))
+//@   lemma oFacts(k int) : 0 <= k && k < old(len(s.Items)) ==> O(k) != nil && instant(S0(k)) && instant(E0(k))
+//@   lemma oDistinct(i int, j int) : 0 <= i && i < j && j < old(len(s.Items)) ==> O(i) != O(j)
+//@   ensures [list] len(s.Items) == old(len(s.Items)) && (forall k int :: 0 <= k && k < len(s.Items) ==> s.Items[k] == O(k))
+//@   ensures [microsecond] forall k int :: 0 <= k && k < old(len(s.Items)) ==> abs(real(O(k).EndAt) - affine(E0(k))) <= 1000.0 && abs(real(O(k).StartAt) - affine(S0(k))) <= 1000.0
+//@   ensures [monotone] forall i, j int :: 0 <= i && i < old(len(s.Items)) && 0 <= j && j < old(len(s.Items)) ==> (E0(i) <= E0(j) ==> O(i).EndAt <= O(j).EndAt) && (S0(i) <= S0(j) ==> O(i).StartAt <= O(j).StartAt) && (S0(i) <= E0(j) ==> O(i).StartAt <= O(j).EndAt) && (E0(i) <= S0(j) ==> O(i).EndAt <= O(j).StartAt)
+//@   assigns Item.StartAt, Item.EndAt
+//@   loop 1: invariant 0.5 - 0.001 <= a && a <= 2.001
+//@   loop 1: invariant forall k int :: 0 <= k && k < idx ==> abs(real(O(k).EndAt) - affine(E0(k))) <= 1000.0 && abs(real(O(k).StartAt) - affine(S0(k))) <= 1000.0
+//@   loop 1: invariant forall k int :: idx <= k && k < old(len(s.Items)) ==> O(k).EndAt == E0(k) && O(k).StartAt == S0(k)
+//@ end
